@@ -669,6 +669,14 @@ func runSolver(ctx context.Context, sp solverSpec, file string, ms, seed int) So
 		el = used
 	}
 	text := buf.String()
+	// z3 prints pattern warnings before the answer
+	for strings.HasPrefix(text, "WARNING") {
+		if i := strings.Index(text, "\n"); i >= 0 {
+			text = text[i+1:]
+		} else {
+			text = ""
+		}
+	}
 	first := strings.TrimSpace(strings.SplitN(text, "\n", 2)[0])
 	res := "error"
 	switch first {
